@@ -76,6 +76,21 @@ func checkC06(ctx *Ctx) *Result {
 				continue
 			}
 			f := e.Args[0].Name
+			// a struct-valued field assigned as a whole (cfg.ExtraConfig =
+			// ExtraConfig{…}) writes each of its fields
+			if v := e.Args[1]; v.Op == "composite" {
+				for k, name := range strings.Split(v.Name, ",") {
+					if k < len(v.Args) {
+						g := tg.tag(v.Args[k])
+						stores[name] = g
+						written[name] = true
+						for _, m := range cfgFieldRe.FindAllStringSubmatch(g, -1) {
+							rendered[m[1]] = true
+						}
+					}
+				}
+				continue
+			}
 			g := tg.tag(e.Args[1])
 			stores[f] = g
 			written[f] = true
@@ -90,6 +105,11 @@ func checkC06(ctx *Ctx) *Result {
 		get := func(tag string) int { return val[tag] }
 		bad := ""
 		expect := func(field, want string) {
+			// (storing a field's zero value into the fresh Config is leaving it unset)
+			switch stores[field] {
+			case "nil", "0", "false", `""`:
+				stores[field] = ""
+			}
 			if stores[field] != want && bad == "" {
 				got := stores[field]
 				if got == "" {
